@@ -94,7 +94,7 @@ impl World for IndividualHistories {
     fn execute(&self, c: &ICase) -> Outcome<ICase> {
         let mut out = Outcome::new();
         out.evaluations = 1;
-        let p = RealP::new(RealSpec { kind: RealKind::Shifted, dim: 3, lo: -5.0, hi: 5.0, penalty: None, name: "ind".into() });
+        let p = RealP::new(RealSpec { kind: RealKind::Shifted, dim: 3, lo: -5.0, hi: 5.0, penalty: None, name: "ind".into(), scale: 1.0 });
         let mut a: Vec<Individual<RealP>> = Vec::new();
         let mut b: Vec<Individual<RealP>> = Vec::new();
         let mut ma: Vec<M> = Vec::new();
